@@ -6,6 +6,7 @@ use std::io::{self, BufRead, Write};
 
 mod pure;
 mod smtp;
+mod pool;
 mod oracles;
 
 pub fn hex(b: &[u8]) -> String {
@@ -67,6 +68,10 @@ fn main() {
             if std::env::var("VERIF_PANIC_MSG").is_err() { std::panic::set_hook(Box::new(|_| {})); }
             let threads = args.get(2).and_then(|s| s.parse().ok()).unwrap_or(16);
             smtp::main_loop(threads);
+        }
+        "pool" => {
+            if std::env::var("VERIF_PANIC_MSG").is_err() { std::panic::set_hook(Box::new(|_| {})); }
+            pool::main_loop();
         }
         _ => {
             eprintln!("unknown mode {}", mode);
